@@ -125,6 +125,7 @@ pub fn eval(case: &str) -> Out {
     let spent: Vec<TxOut> = match unhexlist(w[4]).and_then(|l| l.iter().map(|b| deserialize::<TxOut>(b).ok()).collect::<Option<Vec<_>>>()) { Some(s) => s, None => return Out::ok("harnesserr spent".into()) };
     let genesis = match unhex(w[5]).and_then(|b| <[u8; 32]>::try_from(&b[..]).ok()) { Some(g) => BlockHash::from_byte_array(g), None => return Out::ok("harnesserr genesis".into()) };
     let ops: Vec<Op> = match w[6].split(';').map(|s| parse_op(s, &spent)).collect::<Option<Vec<_>>>() { Some(o) => o, None => return Out::ok("harnesserr ops".into()) };
+    let orig = tx.clone();                  // the transaction before any witness_mut
     let mut shadow = tx.clone();            // the transaction as the caller has left it (the live cache holds `&mut tx`)
     let mut cache = SighashCache::new(&mut tx);
     let mut answers = Vec::new();
@@ -140,6 +141,9 @@ pub fn eval(case: &str) -> Out {
         // (1) the property: the same answer as a cache created for this operation alone
         let fresh = query(&mut SighashCache::new(&shadow), op, &spent, genesis);
         if live != fresh { fails.push(format!("stale-cache|op {} ({}) answered {} by the live cache, {} by a fresh cache", k, show_op(op), live, fresh)); }
+        // (1b) filling in script witnesses through the cache never changes an answer: the same as a fresh cache over the ORIGINAL transaction
+        let fresh0 = query(&mut SighashCache::new(&orig), op, &spent, genesis);
+        if live != fresh0 { fails.push(format!("witness-dependent|op {} ({}) answered {} after the witness updates so far, {} by a fresh cache over the transaction before any witness_mut", k, show_op(op), live, fresh0)); }
         if let Some((i, t, pv)) = op_pv(op) {
             if let Some(t) = schnorr(t) {
                 match pv {
@@ -247,6 +251,19 @@ pub fn gen(rng: &mut ChaCha20Rng, n: usize, thorough: bool) -> Vec<Case> {
             if !ops.is_empty() && rng.gen_range(0..5) == 0 { let j = rng.gen_range(0..ops.len()); let o = ops[j].clone(); tags.push("repeat".into()); ops.push(o); }
             else { ops.push(rop(rng, nin, nout, &spent, &mut tags)); }
         }
+        // interleave: an ANYONECANPAY taproot query on an issuance (else pegin, else any) input, witness_mut on that same input, the query again
+        if k % 3 == 1 && nin > 0 {
+            let pick = |f: &dyn Fn(&elements::TxIn) -> bool| tx.input.iter().position(|i| f(i));
+            let (i, kind) = match pick(&|i| i.has_issuance()) { Some(i) => (i, "issuance"), None => match pick(&|i| i.is_pegin) { Some(i) => (i, "pegin"), None => (rng.gen_range(0..nin), "plain") } };
+            tags.push(format!("targeted:acp-witness-mut-{}", kind));
+            let t = pk!(rng, [0x81u8, 0x82, 0x83]);
+            let pv = if i < spent.len() && rng.gen_range(0..2) == 0 { Pv::One(i) } else { Pv::All };
+            let q = if rng.gen_range(0..2) == 0 { Op::Key(i, t, pv) } else { Op::Taproot(i, t, pv, rannex(rng, &mut tags), None) };
+            let at = rng.gen_range(0..=ops.len());
+            let mut stack = rstack(rng, false); stack.push(vec![0xab, 0xcd]);
+            ops.splice(at..at, [q.clone(), Op::Wit(i, stack), q.clone(), Op::Segwit(i, 0x81, vec![0x51], Value::Explicit(1)), Op::Wit(i, vec![]), q]);
+        }
+        let nops = ops.len();
         tags.push(format!("ops:{}", match nops { 1 => "1", 2..=4 => "2-4", 5..=8 => "5-8", 9..=20 => "9-20", _ => "21+" }));
         tags.push(format!("inputs:{}", nin));
         tags.sort(); tags.dedup();
